@@ -119,7 +119,9 @@ pub fn state_classes() -> Vec<(String, Vec<Step>)> {
     let base = start_with_s();
     let park = TxSpec::Transact { signer: 0, nonce: 1, tgt: Tgt::s(), data: vec![6, 0], len: DEFAULT_LEN };
     let mut with_block = base.clone();
-    with_block.extend(block(vec![s_set(0, 0, 1), TxSpec::Deposit { pk: 0, ticker: "ordi".into(), amount: "0x9".into() }]));
+    // logs with 1, 0, 2 and 4 topics (and the controller's events)
+    let lg = |slot: u8, n: u8, tp: [u8; 4]| TxSpec::Call { pk: 0, tgt: Tgt::s(), data: crate::asm::s_set(slot, 1, n, tp), len: DEFAULT_LEN };
+    with_block.extend(block(vec![s_set(0, 0, 1), TxSpec::Deposit { pk: 0, ticker: "ordi".into(), amount: "0x9".into() }, lg(1, 0, [0; 4]), lg(2, 2, [1, 2, 0, 0]), lg(3, 4, [1, 2, 3, 4])]));
     let mut open = with_block.clone();
     open.push(Step::Tx(s_set(0, 1, 2)));
     let mut pool = with_block.clone();
